@@ -119,6 +119,21 @@ func runC15(p *Program, r *Report) {
 		}
 		refused := map[string]bool{}
 		for _, ce := range condEdgesOf(f) {
+			// the same test written as membership in a constant table: slices.Contains(writePermissions, perm)
+			if names, _, subj, isT := tableMembershipTest(p, ce.cond); isT && subj != nil && atomsOf(subj)["field:AclPermission"] && region[ce.ifi.Block()] {
+				var cutRO []edge
+				for _, rc := range roConds {
+					cutRO = append(cutRO, rc.holds)
+				}
+				if !reachable(f, nil, cutRO)[ce.ifi.Block()] {
+					permConds = append(permConds, ce)
+					pass = append(pass, ce.fails)
+					for _, nm := range names {
+						refused[nm] = true
+					}
+				}
+				continue
+			}
 			if ce.atoms["field:AclPermission"] && ce.isEqNeq && region[ce.ifi.Block()] {
 				// only the tests that are dominated by the readonly true edge: not reachable when that edge is cut
 				var cutRO []edge
@@ -140,7 +155,14 @@ func runC15(p *Program, r *Report) {
 		n := 0
 		for _, s := range errReturnSites(f) {
 			if !isNilConst(s.val) {
-				continue
+				// the verdict of another decision handed back as it is (the policy's, the ACL's) allows when it
+				// is nil: it counts as an allowing return unless it is known non-nil where it is returned
+				if _, isCall := s.val.(*ssa.Call); !isCall || !isErrorType(s.val.Type()) {
+					continue
+				}
+				if truthiness(s.val, s.ret.Block()) > 0 || (s.pred != nil && truthOnEdge(s.val, s.pred, s.phiB) > 0) {
+					continue
+				}
 			}
 			n++
 			r.Check(!siteReachable(f, s, pass), "R-C15-3", name+"/nil-return#"+itoa(n), p.Pos(s.ret.Pos()), "nil return only after the read-only test passed",
